@@ -133,7 +133,11 @@ class Escape:
         if caches:
             cls = [c for c in db.classes.values() if c['name'] == IMPL]
             for c in cls[:1]:
-                for i, f in enumerate([f for f in c.get('fields', []) if f.get('mutable')][:8]):
+                def derived(f):
+                    # mutable members (caches) and bool members (assertions about the geometry, e.g. "is convex")
+                    t = db.types[c['tu']][f['t']] if isinstance(f.get('t'), int) else {}
+                    return f.get('mutable') or t.get('k') == 'b'
+                for i, f in enumerate([f for f in c.get('fields', []) if derived(f) and not f.get('static')][:8]):
                     # (possibly-filled bit, stale bit)
                     self.cache[f['n']] = (chr(ord('0') + i), chr(ord('a') + i))
         self.pbits = frozenset(p for p, _ in self.cache.values())
@@ -425,6 +429,13 @@ class Escape:
                                 # every position is rewritten: NaN marks that flagged stranded verts are wiped
                                 eff['gen_if'] = {'S': 'R'}
                             self.apply_effect(st, obj, eff, fn, ln, 'vertPos_ write')
+                if k == 'bin' and ev.get('op') == '=' and self.cache:
+                    l = T.strip(ev['l'])
+                    if l.get('k') == 'mem' and l.get('n') in self.cache and l.get('cls') == IMPL:
+                        o = self.obj_of(l['base'])
+                        if o and (o in st or o == 'this'):
+                            self.apply_effect(st, o, {'kill': list(self.cache[l['n']]), '_dyn': True}, fn, ln,
+                                              'assignment to ' + l['n'])
                 if k == 'call':
                     for obj, eff, what in self.effect_of_call(fn, ev):
                         if obj in st or obj == 'this':
